@@ -223,10 +223,13 @@ static int wait_reg(struct rthr *th, int id)
 		o->xi[WX_VOID] = 0;
 		rlog[c].n = 0;
 		spawning_child[th->sim] = c + 1;
+		reg_fault_arm(id, 1, FS_FORK, EAGAIN);
 		ret = iv_wait_interest_register_spawn(w, child_fn, NULL);
+		reg_fault_disarm(FS_FORK);
 		spawning_child[th->sim] = 0;
 		pending_spawn[th->sim] = 0;
 		if (ret < 0) {
+			PROBE[PR_REG_FAILED_EXT]++;
 			RO[c].xi[CX_HOW] = 0;
 			o->xi[WX_INPROG] = 0;
 			obj_free_mem(id);
@@ -392,10 +395,16 @@ static int popen_reg(struct rthr *th, int id)
 	RO[c].xi[CX_POPEN] = id + 1;
 	rlog[c].n = 0;
 	spawning_child[th->sim] = c + 1;
+	if (!reg_fault_arm(id, 1, FS_PIPE, EMFILE))
+		reg_fault_arm(id, 2, FS_FORK, EAGAIN);
 	fd = iv_popen_request_submit(req);
+	reg_fault_disarm(FS_PIPE);
+	reg_fault_disarm(FS_FORK);
 	spawning_child[th->sim] = 0;
 	pending_spawn[th->sim] = 0;
 	if (fd < 0) {
+		simk_set_real_fork(0);
+		PROBE[PR_REG_FAILED_EXT]++;
 		RO[c].xi[CX_HOW] = 0;
 		RO[c].xi[CX_POPEN] = 0;
 		obj_free_mem(id);
@@ -715,10 +724,14 @@ static int ivthread_reg(struct rthr *th, int id)
 		return 0;
 	snprintf(name, sizeof(name), "ivt%d", id);
 	o->xi[TX_STATE] = 1;
+	reg_fault_arm(id, 1, FS_PTHREAD_CREATE, EAGAIN);
 	if (iv_thread_create(name, ivt_fn, new_cookie(id)) != 0) {
+		reg_fault_disarm(FS_PTHREAD_CREATE);
+		PROBE[PR_REG_FAILED_EXT]++;
 		o->xi[TX_STATE] = 0;
 		return 1;
 	}
+	reg_fault_disarm(FS_PTHREAD_CREATE);
 	o->registered = 1;
 	return 1;
 }
